@@ -14,6 +14,8 @@
 //	reset <n> <col> [<c> <b0> <m>]     a fresh collector whose address is account <col>; the validator set
 //	                                   is 0..n-1 for every view (with the optional part: for views >= c the
 //	                                   set is b0..b0+m-1)
+//	reset xp|td <n> <col> <start> <tip> <J1> <J2> <J3>
+//	                                   a collector RESTARTED on a ledger (the real xpoa / tdpos constructor): restart.go
 //	prop <id> <view> <parent> <pview> <entry>...
 //	                                   a proposal message arrives: proposal <id> of view <view> whose justify
 //	                                   names <parent>, declares the view <pview> and carries the entries
@@ -41,8 +43,10 @@ import (
 	"sort"
 	"strconv"
 	"strings"
+	"sync/atomic"
 	"time"
 
+	"github.com/xuperchain/xupercore/kernel/consensus/base"
 	bft "github.com/xuperchain/xupercore/kernel/consensus/base/driver/chained-bft"
 	cCrypto "github.com/xuperchain/xupercore/kernel/consensus/base/driver/chained-bft/crypto"
 	bftpb "github.com/xuperchain/xupercore/kernel/consensus/base/driver/chained-bft/pb"
@@ -179,8 +183,8 @@ func fmtSigns(signs []*bftpb.QuorumCertSign, id int) string {
 // ---------------------------------------------------------------- the collector node
 
 type election struct {
-	n           int
-	c, b0, m    int // views >= c: validators b0..b0+m-1 (m == 0: one set for all views)
+	n              int
+	c, b0, m       int // views >= c: validators b0..b0+m-1 (m == 0: one set for all views)
 	cacheA, cacheB []string
 }
 
@@ -233,6 +237,36 @@ type world struct {
 	// ids whose quorum the collector declared through vote collection
 	declared     map[int]bool
 	sentProposal *xuperp2p.XuperMessage
+	// a restarted collector (reset xp|td, restart.go): the plugin instance that owns the Smr, the nodes of the tree rebuilt
+	// from the ledger (id -> view, parent), the signature entries of the certificate the ledger holds for a block (the
+	// justify of its successor), the id of the instance's genesis block
+	plugin      base.ConsensusImplInterface
+	restart     *restartCfg
+	ledgerNodes map[int]proposal
+	ledgerSigs  map[int][]entry
+	genesis     int
+}
+
+// node: what the collector's tree holds under id - a delivered proposal or a block of the ledger it was restarted on
+func (w *world) node(id int) (proposal, bool) {
+	if p, ok := w.props[id]; ok {
+		return p, true
+	}
+	p, ok := w.ledgerNodes[id]
+	return p, ok
+}
+
+// retire stops the goroutines of the plugin instance of a restarted collector
+func (w *world) retire() {
+	if w != nil && w.plugin != nil {
+		// the constructor starts the Smr from a goroutine of its own (`go smr.Start()`): stopping it before it has
+		// registered its subscribers would race with the registration
+		for i := 0; i < 40000 && atomic.LoadInt32(&w.net.regs) < 3; i++ {
+			time.Sleep(50 * time.Microsecond)
+		}
+		w.plugin.Stop()
+		w.plugin = nil
+	}
 }
 
 var w *world
@@ -273,11 +307,19 @@ func (w *world) inTree(id int) bool {
 // its signature list).  collectable: only arrivals while the proposal was known and in the tree.
 func (w *world) supporters(id int, collectable bool) map[int]bool {
 	res := map[int]bool{}
-	p, ok := w.props[id]
+	p, ok := w.node(id)
 	if !ok {
 		return res
 	}
 	lo, cnt := w.el.members(p.view)
+	if !collectable {
+		// a restarted collector also holds the certificate the ledger carries for the block (the justify of its successor)
+		for _, e := range w.ledgerSigs[id] {
+			if e.good() && e.addr >= lo && e.addr < lo+cnt && e.addr != w.col {
+				res[e.addr] = true
+			}
+		}
+	}
 	for _, a := range w.arr {
 		if a.id != id || (collectable && !a.known) {
 			continue
@@ -314,6 +356,9 @@ func (w *world) classify(id int, need int, signs []*bftpb.QuorumCertSign) string
 	// message, or not at all in a message naming id
 	arrivedAs := func(s *bftpb.QuorumCertSign) string {
 		res := "never"
+		if w.fromLedger(id, s) {
+			return "vote" // part of the certificate the ledger holds for this very id
+		}
 		for _, a := range w.arr {
 			for i, e := range a.entries {
 				if a.id == id && string(e.sig.GetSign()) == string(s.GetSign()) && e.sig.GetAddress() == s.GetAddress() {
@@ -413,6 +458,29 @@ func exec(line string, out *xvlib.Out) (res string) {
 	}
 	switch f[0] {
 	case "reset":
+		if len(f) > 1 && (f[1] == "xp" || f[1] == "td") {
+			c, ok := parseRestart(f)
+			if !ok {
+				return "bad-op"
+			}
+			w.retire()
+			w = nil
+			nw, err := newRestartWorld(c)
+			if err != nil {
+				if strings.HasPrefix(err.Error(), "bad entry") || strings.HasPrefix(err.Error(), "bad kind") {
+					return "bad-op"
+				}
+				if out != nil {
+					out.Violate(xvlib.Violation{Key: "collect:restart-fails", What: "a node cannot be restarted on this ledger: " + err.Error(), Ops: []string{line}, Impl: []string{"fail"}})
+				}
+				return "fail"
+			}
+			w = nw
+			w.ops = []string{line}
+			res = w.restartAnswer()
+			w.restartOracle(out, res)
+			return res
+		}
 		n, ok1 := num(1)
 		col, ok2 := num(2)
 		if !ok1 || !ok2 || n < 1 || n > 40 || col < 0 || col >= outsider || (len(f) != 3 && len(f) != 6) {
@@ -428,6 +496,7 @@ func exec(line string, out *xvlib.Out) (res string) {
 				return "bad-op"
 			}
 		}
+		w.retire()
 		w = newWorld(n, col, c, b0, m)
 		w.ops = []string{line}
 		return "ok"
@@ -460,12 +529,15 @@ func exec(line string, out *xvlib.Out) (res string) {
 		w.smr.VerifHandleReceivedProposal(pmsg)
 		if _, dup := w.props[id]; !dup {
 			w.props[id] = proposal{view: int64(view), parent: parent}
+			if ln, ok := w.ledgerNodes[id]; ok {
+				w.props[id] = ln // the tree of a restarted collector already holds the block under its true view
+			}
 		}
 		res = fmt.Sprintf("high=%d view=%d", w.highID(), w.smr.GetCurrentView())
 		// oracle: a proposal moves HighQC to the proposal its justify certifies only with a quorum of that view's set
 		// (the certificate check itself is the business of engines safety / bftmatch; here: the collector's state)
 		if h := w.highID(); h != highBefore && h != 0 {
-			p, known := w.props[h]
+			p, known := w.node(h)
 			good := map[int]bool{}
 			if known && h == parent {
 				lo, cnt := w.el.members(p.view)
@@ -588,7 +660,8 @@ func (w *world) voteOracles(out *xvlib.Out, id int, dview int64, es []entry, kno
 		if sup := w.supporters(id, true); len(sup) >= need && len(es) > 0 {
 			first := es[0]
 			genuine := first.good() && first.addr >= lo && first.addr < lo+cnt && first.addr != w.col && dview == p.view
-			hv := w.props[high].view
+			hn, _ := w.node(high)
+			hv := hn.view
 			if genuine && (view < p.view+1 || hv < p.view) {
 				w.violate(out, "genuine-quorum-not-declared", fmt.Sprintf("valid votes of %d distinct members besides the collector have arrived for proposal %d (view %d, %d required, n=%d) but HighQC is %d and the view %d",
 					len(sup), id, p.view, need, cnt, high, view), res)
@@ -602,6 +675,9 @@ func (w *world) voteOracles(out *xvlib.Out, id int, dview int64, es []entry, kno
 		switch {
 		case !verifies(s, id):
 			w.violate(out, "log-holds-invalid-signature", fmt.Sprintf("the collector stored, for proposal %d, a signature that does not verify for it", id), res)
+		case w.fromLedger(id, s):
+			// part of the certificate the ledger holds for this id (re-loaded at the restart): which entries a certificate
+			// may carry besides its quorum is the business of CheckMinerMatch, which admitted it
 		case !ok || !delivered || a < lo || a >= lo+cnt:
 			w.violate(out, "log-holds-non-member", fmt.Sprintf("the collector stored, for proposal %d, the signature of an address outside the validator set of its view", id), res)
 		case seen[s.GetAddress()]:
@@ -659,6 +735,11 @@ func (w *world) replicaOracle(out *xvlib.Out, id int, res string) {
 	if rep == w.col && cnt > 1 {
 		rep++
 	}
+	if w.restart != nil {
+		// a replica restarted on the same ledger refuses every proposal above view 3 until it confirms a block (the ledger
+		// state of a new Smr is 0): it cannot tell anything about the certificate
+		return
+	}
 	r := newWorld(w.el.n, rep, w.el.c, w.el.b0, w.el.m)
 	for _, m := range w.msgs {
 		r.smr.VerifHandleReceivedProposal(m)
@@ -668,7 +749,8 @@ func (w *world) replicaOracle(out *xvlib.Out, id int, res string) {
 	}
 	before := r.highID()
 	r.smr.VerifHandleReceivedProposal(w.sentProposal)
-	if after := r.highID(); after != id && w.props[before].view <= p.view {
+	bn, _ := w.node(before)
+	if after := r.highID(); after != id && bn.view <= p.view {
 		w.violate(out, "certificate-rejected-by-replica", fmt.Sprintf("the collector declared a quorum for proposal %d with genuine votes, but a replica that receives the collector's next proposal does not accept its justify (replica HighQC %d -> %d)", id, before, after), res)
 	}
 }
@@ -731,8 +813,8 @@ func alphabet(n, col, id int, v int64, full bool) []string {
 	a = append(a, vt(0, 0, fmt.Sprintf("%dv", m1)))  // genuine vote for another known proposal (the root)
 	if full {
 		a = append(a, vt(id, v, fmt.Sprintf("%dc", m1)), vt(id, v, fmt.Sprintf("%dm", m1)))
-		a = append(a, vt(id, v, fmt.Sprintf("%do", m1)))    // the member's genuine vote for the root, replayed for this id
-		a = append(a, vt(id+50, v, fmt.Sprintf("%dv", m1))) // a proposal the collector never received
+		a = append(a, vt(id, v, fmt.Sprintf("%do", m1)))                 // the member's genuine vote for the root, replayed for this id
+		a = append(a, vt(id+50, v, fmt.Sprintf("%dv", m1)))              // a proposal the collector never received
 		a = append(a, vt(id, v, fmt.Sprintf("%dv %dv %dv", m1, n, n+1))) // riders: unchecked extra signatures
 		if len(others) > 1 {
 			a = append(a, vt(id, v, fmt.Sprintf("%dv %dv", others[1], m1)))
